@@ -42,6 +42,8 @@ type stub struct {
 	cc      craftCtx
 	special map[uint64][]int8
 	digest  []int8 // b1t6 of the BLAKE2b-256 digest of the data of the call (192 trits)
+	// crowd runs: the digest of each concurrent call's own data (a worker finds its call through its goroutine)
+	digests [][]int8
 	logCh   chan uint64
 }
 
